@@ -308,6 +308,39 @@ Fixpoint live_tail (f : qfilter) (merge : Z) (received : list batch) : list batc
               end
   end.
 
+(* The subscription point made explicit.  `query_stream(_filtered)` resubscribes
+   the receiver when it is called: from that instant every flushed batch is
+   appended to the subscription's queue (tokio broadcast, subscriber keeping
+   up), whether or not the spawned forwarding task has started its live loop
+   (it first hands over the historical result, possibly back-pressured by the
+   consumer).  Events after the call returned: a flush, or one iteration of the
+   forwarding task's live loop (pop the oldest queued batch, apply, forward the
+   result unless it is Ok(None)).  State: pending queue, forwarded batches. *)
+Inductive xevent := XFlush (b : batch) | XStep.
+
+Definition xstep (f : qfilter) (merge : Z) (st : list batch * list batch) (e : xevent)
+  : list batch * list batch :=
+  match e with
+  | XFlush b => (fst st ++ [b], snd st)
+  | XStep => match fst st with
+             | [] => st                                  (* recv().await stays pending *)
+             | b :: q => match apply f b merge with
+                         | Some fb => (q, snd st ++ [fb])
+                         | None => (q, snd st)
+                         end
+             end
+  end.
+
+Definition xrun (f : qfilter) (merge : Z) (evs : list xevent) : list batch * list batch :=
+  fold_left (xstep f merge) evs ([], []).
+
+Definition xflushes (evs : list xevent) : list batch :=
+  flat_map (fun e => match e with XFlush b => [b] | XStep => [] end) evs.
+
+(* everything the consumer eventually gets: forwarded so far, then the queue drained *)
+Definition xdelivered (f : qfilter) (merge : Z) (evs : list xevent) : list batch :=
+  snd (xrun f merge evs) ++ live_tail f merge (fst (xrun f merge evs)).
+
 (* ------------------------------------------------------------------ *)
 (* Specification: SQL meaning of the WHERE clause, row by row           *)
 (* ------------------------------------------------------------------ *)
